@@ -21,7 +21,7 @@ ASSUMPTIONS = [
     "best-of-k ties (equal reward within 1e-4) accept any of the tied rollouts",
     "POMO/SymNCO regrouping of per-rollout values by factor is C16's concern",
 ]
-REQUIRED_COUNTERS = ["c12_other_size_start_cases", "c12_batchify_calls", "c12_unbatchify_calls", "c12_gather_calls", "c12_cache_batchify_calls", "c12_start_rows", "c12_rollout_rows", "c12_select_best_taps", "c12_best_rows", "c12_start_taps", "c12_strategy_calls", "c12_state_reward_rows"]
+REQUIRED_COUNTERS = ["c12_evaluator_best_cases", "c12_other_size_start_cases", "c12_batchify_calls", "c12_unbatchify_calls", "c12_gather_calls", "c12_cache_batchify_calls", "c12_start_rows", "c12_rollout_rows", "c12_select_best_taps", "c12_best_rows", "c12_start_taps", "c12_strategy_calls", "c12_state_reward_rows"]
 MIN_NONTRIVIAL = {"quick": 3000, "thorough": 30000}
 WORKERS = {"quick": 14, "thorough": 16}
 BUDGET_S = {"quick": 500, "thorough": 3000}
@@ -98,11 +98,22 @@ def cases(tier, seed):
                             continue
                         for r in range(1 if q else 3):
                             out.append(dict(kind="strategy", cfg=cfg, B=B, k=k, decode=dec, select_best=sb, s=rnd.randrange(10**6)))
+    # best-of-k through the evaluators (rl4co.tasks.eval): the reported best reward must come with exactly that rollout's actions
+    for env in ("tsp", "cvrp", "pctsp"):
+        for m in ("multistart_greedy", "multistart_greedy_augment", "multistart_greedy_augment_dihedral_8", "augment", "sampling"):
+            for (N, bs) in (((5, 2),) if q else ((5, 2), (6, 6), (7, 3))):
+                out.append(dict(kind="eval_best", env=env, n=rnd.choice([6, 8]), N=N, bs=bs, method=m, s=rnd.randrange(10**6), A=8 if "dihedral" in m else rnd.choice([2, 4]), k=rnd.choice([3, 5])))
     return out
 
 
 def run_case(ctx, case):
     from vlib import c12impl
+
+    if case["kind"] == "eval_best":
+        from vlib import c15impl
+
+        ctx.count("c12_evaluator_best_cases")
+        return c15impl.eval_case(ctx, case)
 
     {"ops": c12impl.ops_case, "starts": c12impl.starts_case, "policy": c12impl.policy_case, "strategy": c12impl.strategy_case}[case["kind"]](ctx, case)
 
